@@ -200,6 +200,47 @@ class World:
                              lambda: f"{label}: sr[{s}] differs from the written data (shape {got.shape} vs {exp.shape})"):
                 return
             crossed = True
+        if boundary:
+            # integer sample selectors (Python and NumPy scalars) on both sides of every chunk boundary and at the ends,
+            # alone and combined with column selectors; integers outside [-ns, ns) must raise IndexError as NumPy does
+            ch = self.cur_chunk
+            ints = {0, -1, self.ns - 1, -self.ns}
+            for kb in range(1, int(np.ceil(self.ns / ch))):
+                b = kb * ch
+                ints.update(i for i in (b - 1, b, b - self.ns, b - 1 - self.ns) if -self.ns <= i < self.ns)
+            csels = [slice(None), slice(None, None, 2), [self.nc - 1, 0], -1, slice(None, None, -1)]
+            for j, i in enumerate(sorted(ints)):
+                for v in (int(i), np.int64(i)):
+                    c = csels[(j + (0 if isinstance(v, int) else 2)) % len(csels)]
+                    got = ctx.call("C02.read", lambda: sr[v, c])
+                    if got is ctx.CRASH:
+                        return
+                    exp = A[i][c]
+                    if not ctx.check(np.shape(got) == exp.shape and np.array_equal(got, exp), "C02.values",
+                                     lambda: f"{label}: sr[{v!r}, {c}] differs from the written data (shape {np.shape(got)} vs {exp.shape})"):
+                        return
+                got = ctx.call("C02.read", lambda: sr[int(i)])
+                if got is ctx.CRASH:
+                    return
+                if not ctx.check(np.shape(got) == A[i].shape and np.array_equal(got, A[i]), "C02.values",
+                                 lambda: f"{label}: sr[{i}] differs from the written data"):
+                    return
+            for i in (self.ns, self.ns + 7, -self.ns - 1, -2 * self.ns - 1):
+                got = ctx.call("C02.read", lambda: sr[i, :], expect=(IndexError,))
+                if got is ctx.CRASH:
+                    return
+                if not ctx.check(isinstance(got, IndexError), "C02.oob_no_error",
+                                 lambda: f"{label}: sr[{i}, :] returned data of shape {np.shape(got)} for a recording of {self.ns} samples "
+                                         "(NumPy indexing and the uncompressed file raise IndexError)"):
+                    return
+            for s_, c in ((slice(None, None, 3), slice(1, None, 2)), (slice(None), [0, self.nc - 1]), (slice(self.ns // 2, None, -1), -1)):
+                got = ctx.call("C02.read", lambda: sr[s_, c])
+                if got is ctx.CRASH:
+                    return
+                exp = A[s_][:, c]
+                if not ctx.check(np.shape(got) == exp.shape and np.array_equal(got, exp), "C02.values",
+                                 lambda: f"{label}: sr[{s_}, {c}] differs from the written data"):
+                    return
         if crossed and boundary and self.nchunks >= 3 and self.ns % self.case["chunk"]:
             self.boundary_compared = True
 
